@@ -1041,6 +1041,61 @@ def dimension_formula(ctx):
     return dimfn, scalar_of(res, "dimension")
 
 
+def run_c14h(ctx):
+    """Bit-level definitions of the subgraph id: together they make the sector loop run exactly E times."""
+    ctx.rule("C14-h", "subgraph id as a bit mask: full = (1<<E)−1 with E = number of edges; is_empty ⇔ id = 0; has_one_edge ⇔ popcount(id) = 1; contains_edges = "
+                      "{i < E : id & (1<<i) ≠ 0} ascending; pop_edge(g,e).id = g.id XOR (1<<e). Since every removed edge comes from contains_edges of the "
+                      "current graph (C06-b/c), each iteration clears exactly one set bit: the sector loop runs E times and reads (E−1)+(E−1) coordinates; with "
+                      "the λ read and 2 per Gaussian pair the total is 2E−1+DL+(DL mod 2) = get_dimension() (C14-g)")
+    f = ctx.facts
+
+    def meth(name):
+        bs = [x for x in f.mir.values() if (f.fns.get(x.path) or {}).get("name") == name and "TropicalSubGraphId" in ((f.fns.get(x.path) or {}).get("impl_self") or "")
+              and not (f.fns.get(x.path) or {}).get("impl_trait")]
+        if len(bs) != 1:
+            raise Undecided("TropicalSubGraphId::%s (found %d)" % (name, len(bs)))
+        ctx.fn(bs[0].path)
+        return bs[0]
+
+    G = Expr.symbol("g")
+    me = Struct("TropicalSubGraphId", {"id": Num(G), "num_edges": num_size("E")})
+    one = Expr.const(1)
+
+    def body():
+        e_ = Num(Expr.leaf("$ix", "e"), ent="e")
+        i_ = Num(Expr.leaf("$ix", "i"), ent="i")
+        r = Interp(f).run_fn(meth("pop_edge").path, [me, e_])
+        want = Expr.atom(("call", "bitxor", G, Expr.atom(("call", "shl", one, Expr.leaf("$ix", "e")))))
+        ok = isinstance(r, Struct) and scalar_of(r.fields["id"], "id") == want and scalar_of(r.fields["num_edges"], "n") == Expr.symbol("E")
+        ctx.ob("C14-h", "pop_edge(g,e).id == g.id XOR (1<<e), extent unchanged", ok, "preprocessing::TropicalSubGraphId::pop_edge", "pop-edge-xor")
+        r = Interp(f).run_fn(meth("has_edge").path, [me, i_])
+        bit = "%s Ne 0" % Expr.atom(("call", "bitand", G, Expr.atom(("call", "shl", one, Expr.leaf("$ix", "i"))))).key()
+        ctx.ob("C14-h", "has_edge(g,i) ⇔ g.id & (1<<i) ≠ 0", isinstance(r, Cond) and r.key() == bit, "preprocessing::TropicalSubGraphId::has_edge", "has-edge-bit",
+               detail="got %s" % (r.key() if isinstance(r, Cond) else r))
+        r = Interp(f).run_fn(meth("is_empty").path, [me])
+        ctx.ob("C14-h", "is_empty(g) ⇔ g.id == 0", isinstance(r, Cond) and r.key() == "%s Eq 0" % G.key(), "preprocessing::TropicalSubGraphId::is_empty", "is-empty-zero")
+        r = Interp(f).run_fn(meth("has_one_edge").path, [me])
+        ctx.ob("C14-h", "has_one_edge(g) ⇔ popcount(g.id) == 1", isinstance(r, Cond) and r.key() == "%s Eq %s" % (Expr.atom(("call", "popcount", G)).key(), one.key()),
+               "preprocessing::TropicalSubGraphId::has_one_edge", "one-edge-popcount")
+        r = Interp(f).run_fn(meth("new").path, [num_size("E")])
+        wantn = Expr.atom(("call", "shl", one, Expr.symbol("E"))) - one
+        ctx.ob("C14-h", "new(E).id == (1<<E) − 1 (E set bits)", isinstance(r, Struct) and scalar_of(r.fields["id"], "id") == wantn
+               and scalar_of(r.fields["num_edges"], "n") == Expr.symbol("E"), "preprocessing::TropicalSubGraphId::new", "full-id")
+        r = Interp(f).run_fn(meth("contains_edges").path, [me])
+        bitq = "%s Ne 0" % Expr.atom(("call", "bitand", G, Expr.atom(("call", "shl", one, Expr.leaf("$ix", "§"))))).key()
+        ok = isinstance(r, Arr) and r.classes == ("{§∈E | %s}" % bitq,) and scalar_of(r.at("k"), "elem") == Expr.leaf("$ix", "k")
+        ctx.ob("C14-h", "contains_edges(g) = ascending {i < E : has_edge(g,i)}", ok, "preprocessing::TropicalSubGraphId::contains_edges", "contains-edges-set",
+               detail="class %s" % (r.classes if isinstance(r, Arr) else r,))
+        # the full id is built on the number of edges of the topology
+        fulls = [x for x in f.mir.values() if (f.fns.get(x.path) or {}).get("name") == "get_full_subgraph_id"]
+        if len(fulls) == 1:
+            tg = Struct("TropicalGraph", {"topology": Arr(("E",), lambda e: Opaque("edge"), name="topology")})
+            r = Interp(f).run_fn(fulls[0].path, [tg])
+            ctx.ob("C14-h", "the sector loop starts from new(len(topology))", isinstance(r, Struct) and scalar_of(r.fields["id"], "id") == wantn, fulls[0].path,
+                   "full-id-of-topology")
+    guarded_clause(ctx, "C14-h", "preprocessing::TropicalSubGraphId", "bit-mask-definitions", body)
+
+
 def run_c14g(ctx):
     ctx.rule("C14-g", "sibling agreement: the Gaussian routine reads 2·pairs = D·L + (D·L mod 2) coordinates, the Gaussian term of get_num_variables; "
                       "get_dimension = 2E − 1 + D·L + (D·L mod 2)")
@@ -1477,6 +1532,7 @@ def run_c03_tail(ctx, f):
             ctx.ob("C03-d", "iter_edge_weights yields topology[e].weight in index order", ok, bs_[0].path, "getter:iter_edge_weights")
     guarded_clause(ctx, "C03-d", "SampleGenerator", "getters", d)
     run_c03_flags(ctx)
+    run_c03_loops(ctx)
 
 
 def run_c03_flags(ctx, RID="C03-e"):
@@ -1540,6 +1596,46 @@ def run_c03_flags(ctx, RID="C03-e"):
         ctx.ob(RID, "spanning(S) is the conjunction of the mass condition and the momentum condition of the statement", parts(got) == parts(want), fn,
                "spanning-definition", detail="code:      %s\n        reference: %s" % (got[:900], want[:900]))
     guarded_clause(ctx, RID, fn, "spanning-definition", body)
+
+
+def run_c03_loops(ctx, RID="C03-f"):
+    ctx.rule(RID, "loop number of an edge set S: 0 for the empty set, else Σ_{component c of S} (1 + |edges(c)| − |{endpoints of the edges of c}|) "
+                  "(Euler's formula per component; connected-components routine abstracted, its correctness not decided)")
+    f = ctx.facts
+    ln = [b for b in f.mir.values() if (f.fns.get(b.path) or {}).get("name") == "get_loop_number"]
+    if len(ln) != 1:
+        return ctx.lost(RID, "the loop-number routine")
+    fn = ln[0].path
+    ctx.fn(fn)
+
+    def body():
+        def comps_hook(I, c, a):
+            e = a[1]
+            cls = e.classes[0] if isinstance(e, Arr) else "?"
+            return Arr(("comps(%s)" % cls,), lambda j: world.GraphIdVal("comp(«%s»)" % j), name="components")
+        hooks = {}
+        for key, b in f.mir.items():
+            if (f.fns.get(b.path) or {}).get("name") == "get_connected_components":
+                hooks[b.path] = comps_hook
+        I = Interp(f, models=hooks)
+        topo = Arr(("E",), lambda e: Struct("TropicalEdge", {
+            "edge_id": Num(Expr.leaf("$ix", e)), "left": Num(Expr.leaf("vl", e)), "right": Num(Expr.leaf("vr", e)),
+            "weight": Num(Expr.leaf("w", e)), "is_massive": Cond("key", "massive[«%s»]" % e)}), name="topology")
+        tg = Struct("TropicalGraph", {"dod": Num(Expr.symbol("dod")), "topology": topo, "num_massive_edges": Num(Expr.symbol("n_massive")),
+                                      "external_vertices": Arr(("X",), lambda v: Num(Expr.leaf("ext", v)), name="externals"), "num_loops": num_size("L")})
+        S = Arr(("S",), lambda k: Num(Expr.leaf("$ix", k), ent=k), name="subset")
+        res = I.run_fn(fn, [tg, S])
+        got = scalar_of(res, "loop number")
+        ers = [(c, v) for c, v in I.early_returns]
+        ok_empty = len(ers) == 1 and ers[0][0] == "empty(S)" and isinstance(ers[0][1], Num) and ers[0][1].expr == Expr.zero()
+        ctx.ob(RID, "the empty set has loop number 0", ok_empty, fn, "loops-empty", detail="early returns %s" % [c for c, _ in ers])
+        j = fresh("j")
+        ecls = "edges(comp(«%s»))" % j
+        verts = "{%s}" % "; ".join(sorted(["%s : §s∈%s" % (leaf("vl", "§s").key(), ecls), "%s : §s∈%s" % (leaf("vr", "§s").key(), ecls)]))
+        per = Expr.const(1) + Expr.atom(("sym", ecls)) - Expr.atom(("call", "card", verts))
+        want = per.sum_over(j, "comps(S)")
+        compare(ctx, RID, "loops(S) == Σ_c (1 + |edges(c)| − |vertices(c)|)", got, want, fn, "loops-euler", {}, ())
+    guarded_clause(ctx, RID, fn, "loops-euler", body)
 
 
 class TableWorld:
